@@ -61,7 +61,7 @@ def check(pm: ProgramModel, ctx: Ctx) -> None:
         "(relations as multisets, constraints up to REQUIRES=IMPLIES); further cycles are "
         "fixpoints; returned value = text written (UTF-8); reader output well-formed.")
     ctx.not_decided = ["documents not produced by the writer (C09)",
-                       "interactions between dimensions beyond the combined abstract model"]
+                       "three-way and higher interactions between dimensions (every two-way combination is in the pairwise family)"]
     mb = ModelBuilder(pm)
     # the property asks for logically equivalent constraints (an n-ary AndTerm may regroup operands)
     cd = Codec(pm, ctx, W, R, "C08", diff_opts={"ctc_compare": "semantic"})
